@@ -21,12 +21,40 @@ from harness import nof_common as nc
 # case generation
 
 
+def _ops_word(rng, modes, n, left):
+    atoms = [["op", rng.randrange(len(modes)), rng.randint(0, 1)] for _ in range(n)]
+    if rng.random() < 0.3:
+        atoms[rng.randrange(n)] = nc.rand_numfun(rng, modes, 0)
+    if left:
+        t = atoms[0]
+        for a in atoms[1:]:
+            t = ["mul", t, a]
+    else:
+        t = atoms[-1]
+        for a in reversed(atoms[:-1]):
+            t = ["mul", a, t]
+    return t
+
+
+WITNESSES = [
+    # the three defects repaired by fix: commits (7b3f9ab, 63f1ea6, b7cf6e5) stay covered
+    dict(modes=["B"], tree=["mul", ["mul", ["num", 0], ["pow", ["op", 0, 0], 2]], ["op", 0, 1]], grid=[[0], [1], [2], [3]], kind="witness"),
+    dict(modes=["F", "F"], tree=["mul", ["op", 1, 1], ["mul", ["op", 0, 0], ["op", 1, 0]]], grid=[[0, 0], [0, 1], [1, 0], [1, 1]], kind="witness"),
+    dict(modes=["F"], tree=["mul", ["mul", ["add", ["num", 0], ["const", "2", "0"]], ["op", 0, 0]], ["op", 0, 1]], grid=[[0], [1]], kind="witness"),
+]
+
+
 def gen_case(rng, kind=None):
     modes = nc.rand_modes(rng)
     kind = kind or rng.choice(
-        ["mul", "mul", "mul", "assocL", "assocR", "sum", "adj", "pow", "mulsum", "whole", "whole"]
+        ["mul", "mul", "fermi", "fermi", "assocL", "assocR", "sum", "adj", "pow", "mulsum", "whole", "whole"]
     )
-    if kind == "mul":
+    if kind == "fermi":
+        # several fermionic modes, right factor with >= 2 operators (the order of the annihilation pass and
+        # the preceding_fermions counting only matter here)
+        modes = sorted(["F"] * rng.randint(2, 3) + [rng.choice("BLSF")] * rng.randint(0, 1), key=nc.KIND_ORDER.index)
+        t = ["mul", _ops_word(rng, modes, rng.randint(1, 3), True), _ops_word(rng, modes, rng.randint(2, 3), rng.random() < 0.3)]
+    elif kind == "mul":
         t = ["mul", nc.rand_word(rng, modes, 3), nc.rand_word(rng, modes, 3)]
     elif kind == "assocL":
         t = ["mul", ["mul", nc.rand_word(rng, modes, 2), nc.rand_word(rng, modes, 2)], nc.rand_word(rng, modes, 2)]
@@ -105,7 +133,7 @@ def nontrivial_key(case):
 
 def tie_nof(ctx, ncases=None):
     n = ncases or ctx.n(150, 3000)
-    cases = [gen_case(ctx.rng) for _ in range(n)]
+    cases = [dict(w) for w in WITNESSES] + [gen_case(ctx.rng) for _ in range(n)]
     # bound the size: sympy's cost explodes with binary modes (linearisation doubles coefficients)
     cases = [c for c in cases if nc.tree_size(c["tree"]) <= 40]
     with multiprocessing.Pool(8 if ctx.quick else 16) as pool:
